@@ -325,6 +325,20 @@ def run(ctx):
             ctx.instance("TS-OFFSET", "%s|%s" % (cfg, name), nontrivial=n_ok > 0,
                          sample={"method": name, "ok_paths": n_ok, "err_paths": n_err, "paths": len(paths)})
         error_tables(ctx, prog, F)
+        # the accessors through which positions, directions and errors are observed
+        from .. import accessors
+        PM = "konst::parsing::non_parsing_methods::<impl parsing::Parser<'a>>::"
+        PE = "konst::parsing::parse_errors::ParseError::"
+        efields = {f["name"]: i for i, f in enumerate((prog.adts.get("konst::parsing::parse_errors::ParseError") or {"variants": [{"fields": []}]})["variants"][0]["fields"])}
+        accessors.field(ctx, "ACC", prog, PM + "parse_direction", F["parse_direction"], byref=False, what="the parse_direction field")
+        accessors.term(ctx, "ACC", prog, PM + "len", ("len", ("field", ("p", 1), F["str"])), "the length of the remainder")
+        accessors.term(ctx, "ACC", prog, PM + "into_error", ("call", PE + "new", None, ("p", 1), ("p", 2)), "ParseError::new(self, kind)")
+        accessors.term(ctx, "ACC", prog, PM + "into_other_error", ("call", PE + "other_error", None, ("p", 1), ("p", 2)), "ParseError::other_error(self, message)")
+        if "direction" in efields and "kind" in efields:
+            accessors.field(ctx, "ACC", prog, PE + "error_direction", efields["direction"], what="the direction field")
+            accessors.field(ctx, "ACC", prog, PE + "kind", efields["kind"], what="the kind field")
+            accessors.rebuild(ctx, "ACC", prog, PE + "copy", nfields=5)
+    ctx.floor("ACC", 7)
     ctx.floor("TS-OFFSET", 32)
     ctx.floor("TAB-ERR", 4)
 
